@@ -51,6 +51,7 @@ class GroupFullRun:
         self._orig_random = ac.random
         ac.random = clientfam.Shuffler(random.Random(seed))
         self.timer_tags = {}
+        self.new_rejoin = []
         self._wrap_clock()
         run = self
 
@@ -93,6 +94,7 @@ class GroupFullRun:
         self.steps = []
         self.nseen = 0
         self.bad_shutdowns = []
+        self.new_rejoin = []
 
     def restore(self):
         self.ac.random = self._orig_random
@@ -107,6 +109,7 @@ class GroupFullRun:
             tag = None
             if getattr(fn, "__name__", "") == "join_and_sync":
                 tag = ("rejoin", getattr(fn, "__self__", None))
+                self.new_rejoin.append((tag[1], int(round(delay * 1e6))))
             elif f.f_code.co_name in ("_scheduleFrom", "_reschedule"):
                 lc = f.f_locals.get("self")
                 if getattr(getattr(lc, "f", None), "__name__", "") == "_heartbeat":
@@ -176,12 +179,14 @@ class GroupFullRun:
                 "rejoin_timer": len(self._timers("rejoin", grp)), "hb_timer": len(self._timers("hb", grp)),
                 "client_timers": sum(1 for dc in self.clock.getDelayedCalls() if self.timer_tags.get(id(dc)) is None),
                 "rejoin_delays": sorted(self.clock.delays.get(id(dc), -1) for dc in self._timers("rejoin", grp)),
+                "rejoin_new": sorted(d for g_, d in self.new_rejoin if g_ is grp),
             }
         self.steps.append({"e": e, "exc": exc,
                            "coord": {"gen": g.generation, "state": g.state, "members": sorted(g.members), "leader": g.leader or "",
                                      "assign": [[k, v] for k, v in sorted(assign.items())], "ever": sorted(g.ever)},
                            "members": members, "wire": wire, "bad_shutdowns": self.bad_shutdowns})
         self.bad_shutdowns = []
+        self.new_rejoin = []
 
     def all_consumers_of(self, name):
         # every consumer the member ever created is kept (consumers being shut down have left group.consumers)
